@@ -56,6 +56,21 @@ CHECKS["C09"] = dict(ref="5/C09", text="SW.tla defines the score of a gapped row
     "flanks, EDNAFULL / EBLOSUM62, random admissible schemes), and TLC validates structure, counts, score = Score(rows) = optimum, inputs unchanged for every event.",
     note="Bounded: exhaustive for the listed small scopes, sampled beyond. Scores are exact integers (2 x value). Trusted: TLC, CommunityModules.",
     tech="TLA+ specification of local alignment (Gotoh + brute force, SW.tla); TLC-generated pairs replayed into the Go aligner; recorded events validated by TLC (Trace_SW)")
+
+CHECKS["C02"] = dict(ref="5/C02", text="Formats.tla states when an alignment is representable in a format (names vs. the lexer's delimiters, keywords and numbers; translated "
+    "characters) and what the byte channel must deliver (same names, order, residues, length, alphabet detected from the content, sniffed format). TLC generates "
+    "alignments whose length straddles every line/block width (10, 50, 60, 80, 120 and neighbours), rows that spell lexer keywords, Phylip streams of 1-4 "
+    "alignments and every chain of formats x writer options x transport (memory, plain, .gz, .xz file) x explicit/auto-detected parser; the real writers and "
+    "parsers are run hop by hop (plus seeded random alignments and chains) and TLC validates every hop.",
+    note="Bounded: exhaustive over the listed shapes/option cubes, sampled beyond. Writer byte layout is not pinned (only what is parsed back). Trusted: TLC, CommunityModules.",
+    tech="TLA+ specification of the byte channel (Formats.tla); TLC-generated chains replayed through the Go writers/parsers; recorded hops validated by TLC (Trace_Formats)")
+CHECKS["C03"] = dict(ref="5/C03", text="ParseOutcome.tla is the relation between an arbitrary input and an allowed parser answer: explicit error / exit with a message, end of "
+    "stream only on a blank Phylip input, or a well-formed result (non-empty, rectangular, distinct names, consistent with the counts the input declares - the "
+    "specification reads the Phylip header and the Nexus NTAX/NCHAR values from the bytes itself), a partition map over the declared length; never a panic or a "
+    "hang. The driver feeds every parser (all options) all truncations, line deletions/duplications, byte substitutions/insertions/deletions and token splices of "
+    "valid files (thorough: exhaustively over an 18-byte set), detects looping at end of input by counting reads after EOF, survives process exits, and TLC "
+    "validates every outcome.", note="The corpus is finite (mutations of ~30 valid files); 'all byte strings' is not proved. Trusted: TLC, CommunityModules.",
+    tech="TLA+ outcome relation (ParseOutcome.tla); mutational corpus run on the Go parsers with a post-EOF read counter; recorded outcomes validated by TLC (Trace_Parse)")
 NA = []
 def main():
     props = [json.loads(l)["id"] for l in open(os.path.join(V, "properties.jsonl"))]
